@@ -25,8 +25,9 @@ LEVEL = 'exploration'
 RULE = ('One run = one abstract acyclic workbook (1-3 books x 1-3 sheets, <=14 '
         'cells, constants / formulas / array formulas / defined names / '
         'cross-sheet and cross-book references, reference unions / '
-        'intersections, real externalLink parts, whole rows in ~6 % and whole '
-        'columns in ~0.2 % of the runs) executed along 4-6 seeded '
+        'intersections, real externalLink parts, names of other workbooks, '
+        'whole rows in ~6 % of the runs, whole columns in ~0.3 % of the '
+        'thorough runs) executed along 4-6 seeded '
         'schedules (dictionary with shuffled item order | files via loads in a '
         'shuffled book+sheet order | root book with lazy completion | per-book '
         'loader actors interleaved | re-import of a file model\'s export; '
@@ -79,7 +80,8 @@ def generate(seed, tier):
         # the window
         from ..world import add_whole_refs
         wr = Rng(seed, 'whole')
-        heavy = wr.chance(.03 if tier == 'quick' else .05)
+        # (whole columns cost 10-20 s a run: thorough tier only)
+        heavy = tier != 'quick' and wr.chance(.05)
         add_whole_refs(wr, world, cols=heavy)
     srng = Rng(seed, 'sched')
     scheds = []
